@@ -227,13 +227,13 @@ theorem GI.setValue (g : GI env lt s) (hst : s.stack = []) (n : Node) (v : Val)
     (hc : env.cached n.1 = true) :
     GI env lt (s.setValue env n v).1 ∧ (s.setValue env n v).1.stack = [] := by
   unfold St.setValue
-  simp only []
   have g1 := g.clearValueAt hst n true
   have hst1 : (s.clearValueAt n true).stack = [] := by rw [clearValueAt_stack]; exact hst
   have hun := clearValueAt_unheld g n
   split
-  · exact ⟨g1, hst1⟩
-  · generalize s.clearValueAt n true = s1 at g1 hst1 hun
+  · exact ⟨g, hst⟩
+  · simp only []
+    generalize s.clearValueAt n true = s1 at g1 hst1 hun
     have hfields : ∀ (s2 : St), s2 = ({ s1 with data := insert s1.data n v } : St).addNode (.elem n) →
         s2.data = insert s1.data n v ∧ s2.stack = s1.stack ∧ s2.ge = s1.ge ∧ s2.inputs = s1.inputs := by
       intro s2 h; subst h
